@@ -295,6 +295,13 @@ def two_nodes(discipline):
     sx.reach("two-nodes")
 
 
+def concurrent_send(k):
+    """client threads of different nodes share Network.send_message: requests must not be mixed up on their way
+    to the bus (scenario shared with C10)"""
+    from harness import c10
+    c10.concurrent_send(k, tag="C03/concurrent-send")
+
+
 def jobs(tier):
     out = []
     q = tier == "quick"
@@ -307,6 +314,8 @@ def jobs(tier):
         out.append(dict(func="boolean", params=dict(discipline=d)))
         out.append(dict(func="record_member", params=dict(discipline=d)))
         out.append(dict(func="two_nodes", params=dict(discipline=d)))
+    for k in (2, 3):
+        out.append(dict(func="concurrent_send", params=dict(k=k), weight=3 ** k))
     for k in (1, 2, 3):
         out.append(dict(func="stale_responses", params=dict(k=k)))
         for code in (S301.REAL32, S301.REAL64):
@@ -339,11 +348,11 @@ META = dict(
                       "delivery disciplines; two nodes; sibling members written after each other; every frame delivered in a "
                       "receive buffer that is overwritten once notify() has returned",
                 thorough="strings 0..12, byte strings 0..40 and 200"),
-    outside_bounds=["real OS threads (1..8 client threads, python-can virtual bus)", "NaN payloads", "strings with trailing "
+    outside_bounds=["real OS threads pre-empted between synchronisation points (1..8 client threads on python-can's virtual bus); threads are explored at lock granularity only", "NaN payloads", "strings with trailing "
                     "NUL", "non-BMP text"],
     assumptions=["at most 2 noise injections per scenario; noise ids outside every predefined connection set"],
     stubs=["queue with delivery hook", "struct", "bytes", "io model", "logging", "Network.send_message replaced by the loopback"],
-    required_reach=["numeric-inline", "numeric-deferred", "numeric-interleaved", "access-index", "access-name", "boolean",
+    required_reach=["concurrent-send", "numeric-inline", "numeric-deferred", "numeric-interleaved", "access-index", "access-name", "boolean",
                     "real", "text", "blob", "domain-segmented", "record", "two-nodes", "stale-responses"],
     limits=dict(quick=dict(max_decisions=50000), thorough=dict(max_decisions=100000)),
     validate_every=dict(quick=7, thorough=50),
